@@ -24,12 +24,18 @@ def build(tier, seed):
             I.append(up("c13_ev_full_w%d_j%d" % (w, j), w, j, [(ALLK, None, 2)]))
             I.append(up("c13_wfail_full_w%d_j%d" % (w, j), w, j, [(K_DATA, 1, 2, 0)], failat=98))
             I.append(up("c13_ev_empty_w%d_j%d" % (w, j), w, j, [(ALLK, None, 0)]))
+    # second sentence: stale earlier worker vs. the completed newer upload of the same name
+    for l in ((1,) if tier == "quick" else (0, 1)):
+        nm = "c13_stale_worker_len%d" % l
+        I.append(Inst(nm, "worker", "c13_stale!(%s, %d, 12);" % (nm, l), "c13_stale",
+                      {"history": "WRQ accepted (worker 1 creates the file), retransmitted WRQ accepted in overwrite mode (worker 2), worker 2 completes a 1-block upload, worker 1 sees 6 time-outs",
+                       "upload_len": l, "clean_on_error": "symbolic", "interleaving": "worker 2 runs entirely inside worker 1's first blocking receive"}, timeout=900))
     return Check("C13", tier, I, seed,
                  functions=["Worker::<MockSocket>::receive (thread body run inline)", "Worker::receive_file", "verif::fs::File::create", "verif::fs::remove_file"] + WORKER_FUNCS_RCV,
                  assumptions=WORKER_ASSUMPTIONS + [
                      "std::thread::spawn stubbed: the closure runs inline, then the post-condition, then the path is cut (a JoinHandle cannot be fabricated); println!/eprintln! stubbed",
-                     "first sentence of C13 only (abort points x causes x clean/keep of ONE upload). The second sentence (a stale earlier worker must not remove the file a newer worker completed) "
-                     "needs two workers and the listener's request handling: not decided here (DESIGN 5.13 / known limitation)",
+                     "second sentence: one history (retransmitted WRQ in overwrite mode, newer 1-block upload completes, stale worker times out) in one sequentially consistent interleaving; "
+                     "the listener's request handling (why two workers exist) is not executed: the harness plays handle_wrq's File::create + Worker::receive_file for worker 2",
                      "abort point = injected state with j buffered (unflushed) blocks after File::create; blocks flushed before the abort are represented by the write-failure instances only",
                  ], explanation="Worker::receive from an injected state with one abort cause (peer ERROR as any event, six time-outs, write failure at a symbolic offset) and symbolic clean-on-error; "
                                 "post-condition on the model file system evaluated when the thread body has finished")
